@@ -213,19 +213,16 @@ def cubic_spline(
         root_2 = root_2 * root_scale + root_shift
         root_3 = root_3 * root_scale + root_shift
 
-        root1_mask = ((input_left_cumwidths[three_roots_mask] - eps) < root_1).float()
-        root1_mask *= (root_1 < (input_right_cumwidths[three_roots_mask] + eps)).float()
-
-        root2_mask = ((input_left_cumwidths[three_roots_mask] - eps) < root_2).float()
-        root2_mask *= (root_2 < (input_right_cumwidths[three_roots_mask] + eps)).float()
-
-        root3_mask = ((input_left_cumwidths[three_roots_mask] - eps) < root_3).float()
-        root3_mask *= (root_3 < (input_right_cumwidths[three_roots_mask] + eps)).float()
-
+        # The cubic is monotone on its bin, so exactly one root lies in it; a second root can sit just
+        # outside (within eps) when the bin ends next to a turning point, so take the root that violates
+        # the bin the least rather than any root within eps of it.
         roots = torch.stack([root_1, root_2, root_3], dim=-1)
-        masks = torch.stack([root1_mask, root2_mask, root3_mask], dim=-1)
-        mask_index = torch.argsort(masks, dim=-1, descending=True)[..., 0][..., None]
-        outputs[three_roots_mask] = torch.gather(roots, dim=-1, index=mask_index).view(
+        violation = torch.max(
+            input_left_cumwidths[three_roots_mask][..., None] - roots,
+            roots - input_right_cumwidths[three_roots_mask][..., None],
+        ).clamp(min=0)
+        root_index = torch.argmin(violation, dim=-1, keepdim=True)
+        outputs[three_roots_mask] = torch.gather(roots, dim=-1, index=root_index).view(
             -1
         )
 
